@@ -103,6 +103,8 @@ def to_case(o):
         return "CClient %d %d%%nat %s %s %s" % (o["msize"], o["max"], blist(o["stream"]), pend, events(o["events"]))
     if k == "alloc":
         return "CAlloc %d %s %d" % (o["msize"], blist(o["stream"]), o["alloc"])
+    if k == "reneg":
+        return "CReneg %d %d %s %s" % (o["announced"], o["size"], coq_bool(o["answered"]), coq_bool(o["returned"] and o["verok"]))
     if k == "fuzz":
         return "CFlag %s" % coq_bool(o.get("failures", 0) == 0)
     if k == "fuzzfail":
